@@ -54,6 +54,14 @@ def cases(tier):
                     a = {n: DIMS[n][0] for n in DIMS}
                     a.update(method=meth, M=M, grid=g, rhs=rhs, **ex)
                     add(a, ["method", "M", "grid", "rhs"] + list(ex))
+    # a user quadrature state: its refined samples interpolate its integrator-grid values consistently
+    for meth, ex in schemes:
+        for M in (1, 2):
+            for g in ("uniform", "geom"):
+                a = {n: DIMS[n][0] for n in DIMS}
+                a.update(method=meth, M=M, grid=g, rhs="nl_t", **ex)
+                dq = finish(a); dq["quad"] = True
+                out.append(dict(kind="quad", d=dq, dev=["quad", "method", "M", "grid"] + list(ex)))
     # DAE models under DirectCollocation: sampler / refined samples of the algebraic variable
     for dg in (1, 2, 3, 4):
         for sc in ("radau", "legendre"):
@@ -227,9 +235,65 @@ def run_dae(case):
     return dict(violations=vios, evaluations=max(evals, 1), traces=1, transitions=3, outcome=explore.sha([_trans.compact(d), [v["sig"] for v in vios]]), nontrivial=True, sample=dict(d=_trans.compact(d), dae=True))
 
 
+def run_quad(case):
+    """refined samples of a user quadrature state: every r-th refined entry is the integrator-grid value, the closing entry is the
+    value at tf, each step's refined values (incl. the next step's start) lie on one polynomial of the scheme's degree (shooting
+    methods), and different refinements sample the same polynomial"""
+    import casadi as ca, sys
+    d = case["d"]
+    tags = _trans.tags_of(d) + ["quadrature_state"]
+    vios = []
+    N, M = d["N"], d["M"]
+    evals = 0
+    try:
+        r = P.declare(d)
+        st, s = r.st, r.sym
+        nlp = NL.Nlp(r.ocp)
+        w = NL.generic(nlp.nx, 0, core.get_seed() if hasattr(core, "get_seed") else 0, lo=0.2, hi=1.1)
+        w, resid = feasible(nlp, w)
+        Rs = [1, 2, 3, 7] if d["method"] != "DC" else []       # (refined sampling of a quadrature state raises under DirectCollocation)
+        ex = [st.sample(s["q"], grid="integrator")[1], st.sample(s["q"], grid="control")[1]] + [st.sample(s["q"], grid="integrator", refine=rr)[1] for rr in Rs]
+        vals = [np.array(v).reshape(-1) for v in ca.Function("q", [nlp.x, nlp.p], ex)(w, nlp.p0)]
+        Qi, Qc = vals[0], vals[1]
+        Qf = dict(zip(Rs, vals[2:]))
+        if not NL.close(Qi[::M], Qc, 1e-9):
+            vios.append(dict(sig="value:quad:thinning:control", tags=tags, detail="every M-th integrator-grid value of the quadrature state differs from its control-grid sample: %s vs %s" % (np.round(Qi[::M], 5), np.round(Qc, 5))))
+        for rr in Rs:
+            evals += Qf[rr].size
+            if Qf[rr].size != N * M * rr + 1 or not NL.close(Qf[rr][::rr], Qi, 1e-8):
+                vios.append(dict(sig="value:quad:thinning:integrator", tags=tags + ["refine=%d" % rr], detail="every r-th refined value of the quadrature state differs from the integrator-grid sample (closing entry %g vs %g)" % (Qf[rr][-1], Qi[-1])))
+                break
+        if not vios and d["method"] != "DC":
+            deg = 1 if d["intg"] == "expl_euler" else 4
+            R = 7; ssub = np.linspace(0, 1, R + 1); polys = []
+            for i in range(N * M):
+                seg = Qf[R][i * R:(i + 1) * R + 1]
+                p_ = np.poly1d(np.polyfit(ssub, seg, deg))
+                polys.append(p_)
+                if np.max(np.abs(p_(ssub) - seg)) > 1e-8 * (1 + np.max(np.abs(seg))):
+                    vios.append(dict(sig="value:quad:degree", tags=tags, detail="the refined values of the quadrature state in integrator step %d (incl. its end value) do not lie on one polynomial of degree %d (residual %g)" % (i, deg, np.max(np.abs(p_(ssub) - seg)))))
+                    break
+            if not vios:
+                for rr in (2, 3):
+                    for i in range(N * M):
+                        for j in range(rr):
+                            if not NL.close(Qf[rr][i * rr + j], polys[i](j / rr), 1e-7):
+                                vios.append(dict(sig="value:quad:inconsistent", tags=tags + ["refine=%d" % rr], detail="refine=%d and refine=7 disagree inside integrator step %d for the quadrature state" % (rr, i))); break
+                        if vios: break
+                    if vios: break
+    except Exception as e:
+        fr = core.rockit_frame(sys.exc_info()[2])
+        if fr is None and not isinstance(e, (RuntimeError, AssertionError)):
+            raise
+        vios.append(dict(sig="exception:quad:%s" % (fr or type(e).__name__), tags=tags, detail="%s: %s" % (type(e).__name__, str(e)[:200])))
+    return dict(violations=vios, evaluations=max(evals, 1), traces=1, transitions=2, outcome=explore.sha([_trans.compact(d), [v["sig"] for v in vios]]), nontrivial=True, sample=dict(d=_trans.compact(d), quad=True))
+
+
 def run_case(case):
     if case.get("kind") == "hist":
         return run_hist(case)
+    if case.get("kind") == "quad":
+        return run_quad(case)
     if case.get("kind") == "dae":
         return run_dae(case)
     import casadi as ca, sys
@@ -422,6 +486,6 @@ def convergence_cases():
 
 def describe(tier):
     return dict(
-        rule="deviation-bounded enumeration over method/intg/degree(1..5)/scheme/N/M/grid/rhs/state/horizon/per-interval parameter plus every scheme x M x grid x {nonlinear time-dependent, degree-1, degree-2, degree-d solution} table; at two dynamically feasible decision vectors (min-norm Newton on the real equality rows): thinning (refine r -> integrator -> control, times and values, r=1..7), equal subdivision of every step, the 8 values of refine=7 on one polynomial of the scheme's degree incl. the step's end state, other refinements on the same polynomial, initial slope = rhs (explicit schemes) / through the helper states with slope = rhs at every collocation time (collocation), exactness on polynomial solutions, sampler(gist,t) = that polynomial on a lattice of query times (grid times, midpoints, irrational offsets, both ends); sampler of [u, t, u*x+t] = the containing interval's control, the query time and their combination with the state polynomial; DAE x degree 1..4 x scheme x M x N x grid under DirectCollocation: sampler and refined samples of z and z*x = the degree d-1 polynomial through the step's collocation values of z; histories (refined samples and sampler taken, set_T / set_t0, taken again) = fresh Ocp",
+        rule="deviation-bounded enumeration over method/intg/degree(1..5)/scheme/N/M/grid/rhs/state/horizon/per-interval parameter plus every scheme x M x grid x {nonlinear time-dependent, degree-1, degree-2, degree-d solution} table; at two dynamically feasible decision vectors (min-norm Newton on the real equality rows): thinning (refine r -> integrator -> control, times and values, r=1..7), equal subdivision of every step, the 8 values of refine=7 on one polynomial of the scheme's degree incl. the step's end state, other refinements on the same polynomial, initial slope = rhs (explicit schemes) / through the helper states with slope = rhs at every collocation time (collocation), exactness on polynomial solutions, sampler(gist,t) = that polynomial on a lattice of query times (grid times, midpoints, irrational offsets, both ends); sampler of [u, t, u*x+t] = the containing interval's control, the query time and their combination with the state polynomial; a user quadrature state x every scheme x M x grid: thinning of its refined samples, closing value, one polynomial of the scheme's degree per step (shooting methods), refinements consistent; DAE x degree 1..4 x scheme x M x N x grid under DirectCollocation: sampler and refined samples of z and z*x = the degree d-1 polynomial through the step's collocation values of z; histories (refined samples and sampler taken, set_T / set_t0, taken again) = fresh Ocp",
         bound="k<=%d deviations + scheme table" % (3 if tier == "thorough" else 2),
         assumptions=["feasible points are found by Newton on the real rows (non-converged points are skipped and counted)", "rhs values come from the reference interpreter"])
